@@ -153,13 +153,13 @@ def gen_program(rng, n_defs=None, allow=("obj", "fn", "hash", "paste", "va", "va
             p.features.add("undef")
         elif "push" in allow and r < 0.2 and p.macros:
             victim = rng.choice(sorted(p.macros))
-            form = rng.choice(["redefine", "redefine", "undef-only", "undefined-name", "nested", "untouched"])
+            form = rng.choice(["redefine", "redefine", "redefine-in-place", "undef-only", "undefined-name", "nested", "untouched"])
             if form == "undefined-name":
                 victim = "NEVER_DEFINED_%d" % len(p.lines)
             p.lines.append('#pragma push_macro("%s")' % victim)
             if form in ("redefine", "undef-only", "nested"):
                 p.lines.append("#undef %s" % victim)
-            if form in ("redefine", "undefined-name", "nested"):
+            if form in ("redefine", "undefined-name", "nested", "redefine-in-place"):     # (in place: no #undef before the new definition)
                 p.lines.append("#define %s pushed_%s" % (victim, victim))
             if form == "nested":
                 p.lines.append('#pragma push_macro("%s")' % victim)
@@ -169,7 +169,7 @@ def gen_program(rng, n_defs=None, allow=("obj", "fn", "hash", "paste", "va", "va
                 p.lines.append("deep%d = %s ;" % (len(p.lines), victim))
                 p.lines.append('#pragma pop_macro("%s")' % victim)
             mid_live = dict(p.macros)
-            if form in ("redefine", "undefined-name", "nested"):
+            if form in ("redefine", "undefined-name", "nested", "redefine-in-place"):
                 mid_live[victim] = (None, False)
             elif form == "undef-only":
                 mid_live.pop(victim, None)
@@ -178,6 +178,12 @@ def gen_program(rng, n_defs=None, allow=("obj", "fn", "hash", "paste", "va", "va
             p.lines.append('#pragma pop_macro("%s")' % victim)
             p.live["post%d" % len(p.lines)] = dict(p.macros)
             p.lines.append("post%d = %s ;" % (len(p.lines), victim))     # the definition in force before the push is back (or none)
+            if form == "redefine-in-place" and victim in p.macros:
+                # the restored definition is used, then replaced once more without #undef
+                p.lines.append("#define %s again_%s" % (victim, victim))
+                p.macros[victim] = (None, False)
+                p.live["again%d" % len(p.lines)] = dict(p.macros)
+                p.lines.append("again%d = %s ;" % (len(p.lines), victim))
             p.features.add("push_pop")
             p.features.add("push_pop-" + form)
     for j in range(rng.randrange(2, 6)):
